@@ -21,6 +21,7 @@ package proxy
 //@   ensures [C04] deadlines_only_from_provider_2: called(@RefreshSession#1) ==> S.ValidDeadline == at(@LoadSession#1, S.ValidDeadline) && S.RefreshDeadline == at(@RefreshSession#1, S.RefreshDeadline) && S.GracePeriodStart == at(@RefreshSession#1, S.GracePeriodStart) && S.AccessToken == at(@RefreshSession#1, S.AccessToken)
 //@   ensures [C04] deadlines_only_from_provider_3: called(@ValidateSessionState#1) ==> S.RefreshDeadline == at(@LoadSession#1, S.RefreshDeadline) && S.ValidDeadline == at(@ValidateSessionState#1, S.ValidDeadline) && S.GracePeriodStart == at(@ValidateSessionState#1, S.GracePeriodStart)
 //@   ensures [C04 C13] identity_untouched: called(@LoadSession#1) && @LoadSession#1.1 == nil ==> S.Email == at(@LoadSession#1, S.Email) && S.User == at(@LoadSession#1, S.User) && S.ProviderSlug == at(@LoadSession#1, S.ProviderSlug) && S.AuthorizedUpstream == at(@LoadSession#1, S.AuthorizedUpstream)
+//@   ensures [C11] rejected_by_the_rules_only_when_no_rule_admits: called(@Validate#1) && @Validate#1 != nil ==> forall i :: 0 <= i && i < len(p.Validators) ==> typeis(p.Validators[i], "validators.EmailGroupValidator") || !vpass(p.Validators[i].tag, p.Validators[i].pay, S.Email)
 //@   ensures [C01 C11] rules: err == nil ==> forall i :: 0 <= i && i < len(p.Validators) ==> typeis(p.Validators[i], "validators.EmailGroupValidator") || vpass(p.Validators[i].tag, p.Validators[i].pay, S.Email)
 //@   ensures [C01 C04] clears: err != nil ==> rw.$sessionCookie == 2
 //@   ensures [C03] user_header: err == nil ==> hdrIs(req.Header, "X-Forwarded-User", S.User)
